@@ -178,10 +178,12 @@ class LinkModel:
     def pull(self, t, pos=None):
         pos = len(self.chain) - 1 if pos is None else pos
         if pos < 0:
-            self.src_requests.append(t)
             if self.source_eval is not None:
+                self.src_requests.append(t)
                 return self.source_eval(t)
-            return nearest(self.source_pubs(t), t)
+            val = nearest(self.source_pubs(t), t)
+            self.src_requests.append(t)       # a refused request is not registered by the output
+            return val
         a = self.chain[pos]
         k = a["kind"]
         if k == "scale":
@@ -195,9 +197,14 @@ class LinkModel:
         if k == "delay_pull":
             t2 = self.delay_time(pos, t, commit=False)
             try:
-                return self.pull(t2, pos - 1)
-            finally:
-                self.hist[pos].append(t)      # _pulled() is called after the pull
+                val = self.pull(t2, pos - 1)
+            except ModelRefuse:
+                raise                         # _pulled() is only called after a successful pull
+            except Unknown:
+                self.hist[pos].append(t)
+                raise
+            self.hist[pos].append(t)
+            return val
         if k == "delay_push":
             return self.pull(self.delay_time(pos, t, commit=True), pos - 1)
         if k in BUFFERING:
